@@ -56,6 +56,21 @@ func init() {
 		"(*sync.WaitGroup).Add":       extNop,
 		"(*sync.WaitGroup).Done":      extNop,
 		"(*sync.WaitGroup).Wait":      extNop,
+		"(*sync.RWMutex).Lock":        extNop,
+		"(*sync.RWMutex).Unlock":      extNop,
+		"(*sync.RWMutex).RLock":       extNop,
+		"(*sync.RWMutex).RUnlock":     extNop,
+		"(*sync.Once).Do":             extOnceDo,
+		"sync/atomic.AddInt32":        extAtomicAdd64,
+		"sync/atomic.AddInt64":        extAtomicAdd64,
+		"sync/atomic.AddUint32":       extAtomicAdd64,
+		"sync/atomic.LoadInt32":       extAtomicLoad64,
+		"sync/atomic.LoadInt64":       extAtomicLoad64,
+		"sync/atomic.LoadUint32":      extAtomicLoad64,
+		"sync/atomic.StoreInt32":      extAtomicStore,
+		"sync/atomic.StoreInt64":      extAtomicStore,
+		"sync/atomic.StoreUint32":     extAtomicStore,
+		"sync/atomic.StoreUint64":     extAtomicStore,
 		"(*sync.Mutex).Lock":          extNop,
 		"(*sync.Mutex).Unlock":        extNop,
 	}
@@ -551,3 +566,30 @@ func extCtxWithCancel(m *Machine, caller *frame, args []Value) Value {
 	m.unsupported("context.WithCancel")
 	return nil
 }
+
+func extAtomicStore(m *Machine, caller *frame, args []Value) Value {
+	p := args[0].(Ptr)
+	if p == nil {
+		m.throwRuntime("invalid memory address or nil pointer dereference")
+	}
+	m.logAccess(p, true, true, caller)
+	*p = args[1]
+	return nil
+}
+
+// sync.Once: field 0 of the struct records completion (modelled, not the real layout semantics)
+func extOnceDo(m *Machine, caller *frame, args []Value) Value {
+	p := args[0].(Ptr)
+	if p == nil {
+		m.throwRuntime("invalid memory address or nil pointer dereference")
+	}
+	st := (*p).(Struct)
+	if done, ok := st[len(st)-1].(onceDone); ok && bool(done) {
+		return nil
+	}
+	st[len(st)-1] = onceDone(true)
+	m.call(caller, token.NoPos, args[1], nil)
+	return nil
+}
+
+type onceDone bool
